@@ -19,6 +19,10 @@ ServerOK(d, f) ==
        LET m == d.methods[i] a == f.server[i] IN
        /\ a.path = Path(d, m) /\ a.grpc_calls = <<Kind(m)>> /\ a.trait_calls = <<m.name>>
        /\ Len(a.impls) = 1 /\ a.impls[1].trait = Trait(m) /\ Len(a.resp) = 1
+       \* a streaming response names its item type once more when the stream is boxed (default stubs): it is the response type
+       /\ ("resp_stream_items" \in DOMAIN a) => (/\ Len(a.resp_stream_items) = (IF m.ss THEN 1 ELSE 0)
+                                                 /\ \A k \in 1..Len(a.resp_stream_items) : a.resp_stream_items[k] \in {"", a.resp[1]}
+                                                 /\ (m.ss /\ d.opts.default_stubs) => a.resp_stream_items = <<a.resp[1]>>)
   /\ f.service_name = <<Qual(d)>> /\ f.named \in {<<"SERVICE_NAME">>, <<"\"" \o Qual(d) \o "\"">>}
   /\ f.trait_fns = [i \in 1..Len(d.methods) |-> d.methods[i].name]
 AgreeOK(d, f) == \A i \in 1..Len(d.methods) :
